@@ -72,19 +72,32 @@ def CSb_Photo_Partial (T : Tables α) (Z shell : Int) (E : α) : Expect α :=
       (T.Photo_Partial_Kissel2 Z.toNat shell.toNat) (T.NE_Photo_Partial_Kissel Z.toNat shell.toNat) (XNum.log E) XNum.exp
   else .fails
 
-/-- shape of one Kissel sub-shell table beyond `vecOkB`: a sub-shell that can pass the guards (occupied, with an
-edge) has at least two knots and the first two abscissae differ (the extension divides by their difference) -/
-def kisselOkB (T : Tables α) (Z shell : Int) : Bool :=
-  decide (T.Electron_Config_Kissel Z.toNat shell.toNat < (1.0e-6 : α)) ||
-  !decide ((0.0 : α) < T.EdgeEnergy_arr Z.toNat shell.toNat) ||
-  (decide (2 ≤ T.NE_Photo_Partial_Kissel Z.toNat shell.toNat) &&
-   decide (knot (T.E_Photo_Partial_Kissel Z.toNat shell.toNat) 1 < knot (T.E_Photo_Partial_Kissel Z.toNat shell.toNat) 2))
+/-- the sub-shell's table can be read at some energy: occupied and with an edge (the part of `kisselGuard` that does not
+depend on `E`; the range checks on `Z` and `shell` aside).  For every other cell the function fails before touching
+the table, so nothing is required of it (unoccupied sub-shells have count 0 and empty vectors in the real data). -/
+def kisselReadable (T : Tables α) (Z shell : Int) : Bool :=
+  !decide (T.Electron_Config_Kissel Z.toNat shell.toNat < (1.0e-6 : α)) &&
+  decide ((0.0 : α) < T.EdgeEnergy_arr Z.toNat shell.toNat)
 
-/-- `vecOkB` and `kisselOkB` for one sub-shell -/
+/-- shape of a readable Kissel sub-shell table beyond `vecOkB`: at least two knots and the first two abscissae differ
+(the extension reads the second knot and divides by their difference) -/
+def kisselOkB (T : Tables α) (Z shell : Int) : Bool :=
+  decide (2 ≤ T.NE_Photo_Partial_Kissel Z.toNat shell.toNat) &&
+  decide (knot (T.E_Photo_Partial_Kissel Z.toNat shell.toNat) 1 < knot (T.E_Photo_Partial_Kissel Z.toNat shell.toNat) 2)
+
+/-- the shape condition of one sub-shell: nothing for an unreadable cell, `vecOkB` and `kisselOkB` for a readable one -/
 def kisselShapeB (T : Tables α) (Z shell : Int) : Bool :=
-  vecOkB (T.E_Photo_Partial_Kissel Z.toNat shell.toNat) (T.Photo_Partial_Kissel Z.toNat shell.toNat)
-    (T.Photo_Partial_Kissel2 Z.toNat shell.toNat) (T.NE_Photo_Partial_Kissel Z.toNat shell.toNat) &&
-  kisselOkB T Z shell
+  !kisselReadable T Z shell ||
+  (vecOkB (T.E_Photo_Partial_Kissel Z.toNat shell.toNat) (T.Photo_Partial_Kissel Z.toNat shell.toNat)
+      (T.Photo_Partial_Kissel2 Z.toNat shell.toNat) (T.NE_Photo_Partial_Kissel Z.toNat shell.toNat) &&
+    kisselOkB T Z shell)
+
+/-- the shape condition of one sub-shell profile column: `vecOkB` for the columns `ComptonProfile_Partial` reads
+(`hasProfile`: sub-shell listed with a non-zero occupancy); nothing for the others (dummy vectors in the real data) -/
+def profileColOkB (T : Tables α) (Z shell : Int) : Bool :=
+  !hasProfile T Z shell ||
+  vecOkB (T.pz_ComptonProfiles Z.toNat) (T.Partial_ComptonProfiles Z.toNat shell.toNat)
+    (T.Partial_ComptonProfiles2 Z.toNat shell.toNat) (T.Npz_ComptonProfiles Z.toNat)
 
 /-! ## the photo sums -/
 
@@ -114,17 +127,17 @@ def CS_Total_Kissel (T : Tables α) (Z : Int) (E : α) : Expect α := CS_Total_K
 /-- `CSb_Total_Kissel = CS_Total_Kissel · A / N_A` -/
 def CSb_Total_Kissel (T : Tables α) (Z : Int) (E : α) : Expect α := CSb_Total_Kissel_of T Z E (CSb_Photo_Total T Z E)
 
-/-- every (Z, sub-shell) whose Kissel table fails the shape conditions, every Z whose profile table does (expected: none) -/
+/-- every (Z, sub-shell `K … Q3` with an edge column) whose Kissel table fails `kisselShapeB`, every Z failing `profileOkB`,
+every (Z, column < NShells) failing `profileColOkB` (expected: none).  Only cells the C functions can read are constrained. -/
 def shapeFailures2 (T : Tables α) : List (String × Nat × Nat) :=
   ((List.range 121).flatMap fun (z : Nat) =>
-    ((List.range 31).filter fun (s : Nat) => !kisselShapeB T (Int.ofNat z) (Int.ofNat s)).map
+    ((List.range Hdr.SHELLNUM.toNat).filter fun (s : Nat) => !kisselShapeB T (Int.ofNat z) (Int.ofNat s)).map
       fun (s : Nat) => ("Kissel", z, s)) ++
   ((List.range 121).filter fun (z : Nat) => !profileOkB T (Int.ofNat z)).map
     (fun (z : Nat) => ("ComptonProfile_Partial", z, 0)) ++
   ((List.range 121).flatMap fun (z : Nat) =>
     ((List.range (T.NShells_ComptonProfiles z).toNat).filter fun (s : Nat) =>
-      !vecOkB (T.pz_ComptonProfiles z) (T.Partial_ComptonProfiles z s) (T.Partial_ComptonProfiles2 z s)
-        (T.Npz_ComptonProfiles z)).map fun (s : Nat) => ("Partial_ComptonProfiles", z, s))
+      !profileColOkB T (Int.ofNat z) (Int.ofNat s)).map fun (s : Nat) => ("Partial_ComptonProfiles", z, s))
 
 end
 end Spec
